@@ -100,6 +100,10 @@ REWRITES = [
     # one symbol.  Making the inline definitions file-local is what gcc's always_inline amounts to.
     (re.compile(r"^__always_inline ", re.M), "static __always_inline ",
      "__always_inline function definition -> static __always_inline (file-local, as after gcc inlining)"),
+    # the level-by-level / block-by-block switch of the q120 NTT: made overridable so that the by-block branch (n > 1024 in the library) can be
+    # executed end to end at small n with -DCHANGE_MODE_N=4|8; without the define the text means what it meant
+    (re.compile(r"^#define CHANGE_MODE_N 1024$", re.M), "#ifndef CHANGE_MODE_N\n#define CHANGE_MODE_N 1024\n#endif",
+     "#define CHANGE_MODE_N 1024 -> the same under #ifndef (lowered only by the by-block schedule obligations)"),
 ]
 
 
